@@ -604,6 +604,11 @@ class ExcelCompiler:
                             self.evaluate(child_address)
                         needed_cells.add(child_address)
                         child_cell.formula = None
+                        if child_cell in self.dep_graph:
+                            # it is a value now: a later set_value() of a
+                            # former precedent must not reset it
+                            self.dep_graph.remove_edges_from(tuple(
+                                self.dep_graph.in_edges(child_cell)))
                         self.log.debug(f'Trimming {child_address}')
 
         for addr in output_addrs:
